@@ -200,7 +200,16 @@ func (p *Percentage) UnmarshalText(value []byte) error {
 // UnmarshalJSON ensures percentages will be parsed even if defined as
 // numbers in the source JSON.
 func (p *Percentage) UnmarshalJSON(value []byte) error {
-	return p.UnmarshalText(unquote(value))
+	if string(value) == "null" {
+		return nil
+	}
+	// the quoted text "null" is a string, not the null literal
+	result, err := PercentageFromString(string(unquote(value)))
+	if err != nil {
+		return err
+	}
+	*p = result
+	return nil
 }
 
 // JSONSchema provides a representation of the struct for usage in Schema.
